@@ -13,6 +13,9 @@ Decided:
  T5 completion tokens chosen by the device select the buffer: at every pop_used call outside the queue, if the token
     operand derives from peek_used (an id the device wrote), every buffer handed to pop_used is selected through that
     same token (table[token]); a fixed buffer may only be released under the token the driver stored when it added it.
+ T6 no use-after-free steered by response bytes: a DMA region attached to a device resource as backing leaves the
+    driver object (take / = None) only after the device was told to detach it, on every path - including the paths on
+    which a device-written response makes a teardown command fail (C20.Z4; GPU driver; configurations with `alloc`).
 Not decided: absence of panics (the property allows clean panics); arbitrary callers of the unsafe queue API.
 """
 from .common import *
@@ -94,6 +97,10 @@ def run(F, R):
     else:
         R.held('T1', 'no-load:desc+avail', '', 'no load from the descriptor table or available ring in %d functions; control: %d used-ring loads recognised' % (nf, used_loads))
     t5_token_provenance(F, R, M)
+    if 'device::gpu::VirtIOGpu' in F.adts:
+        from . import C05 as _c5
+        from .C20 import z3_z4_gpu
+        z3_z4_gpu(F, RuleProxy(R, {'Z4': 'T6'}), M, _c5.classify_api(_c5.queue_api(F, M)))
     # T3
     R.count('unleak_sites', len(unleaks))
     for b, sg, n in unleaks:
